@@ -13,7 +13,7 @@ package detect
 //@   loop 1
 //@     invariant len(results) == 15 && off(results) == 0 && fresh(results)
 //@     invariant forall i int :: {results[i]} 0 <= i && i < $i ==> results[i] != nil && results[i].Q == app(runnerOf(i), data).Q && results[i].Pass == app(runnerOf(i), data).Pass && results[i].P == app(runnerOf(i), data).P
-//@   assert in loop 1: method.Runner == runnerOf($i)
+//@   assert in loop 1: TestMethodArr[$i].Runner == runnerOf($i)
 
 //@ func Round12
 //@   requires len(data) >= 0
@@ -23,7 +23,7 @@ package detect
 //@   loop 1
 //@     invariant len(results) == 12 && off(results) == 0 && fresh(results)
 //@     invariant forall i int :: {results[i]} 0 <= i && i < $i ==> results[i] != nil && results[i].Q == app(runnerOf(i), data).Q && results[i].Pass == app(runnerOf(i), data).Pass && results[i].P == app(runnerOf(i), data).P
-//@   assert in loop 1: method.Runner == runnerOf($i)
+//@   assert in loop 1: arr[$i].Runner == runnerOf($i)
 
 //@ func createDistributions
 //@   requires s >= 0 && m >= 0
